@@ -24,6 +24,11 @@ def PhaseOf (pc : Pc) (h : Nat) (chC dnC : Bool) (kind : Kind) (ans : Nat) : Pro
   | .got v => h = 0 ∧ chC = false ∧ dnC = false ∧ v = ans
   | .retV v => h = 0 ∧ dnC = false ∧ v = ans
   | .retT => h ≤ 1 ∧ chC = false ∧ dnC = true ∧ kind = .timeout
+  | .holding => h = 1 ∧ chC = false ∧ dnC = false
+
+theorem phaseOf_afterSend (k : Kind) (h : Nat) (c d : Bool) (k' : Kind) (a : Nat) :
+    PhaseOf (afterSend k) h c d k' a ↔ (h = 1 ∧ c = false ∧ d = false) := by
+  cases k <;> simp [afterSend, PhaseOf]
 
 def Phase (c : Cfg) (s : St) (i : Nat) : Prop :=
   PhaseOf (s.asker i).pc (holds s i) (s.asker i).chClosed (s.asker i).doneClosed (s.asker i).kind (answer c s i)
@@ -98,7 +103,7 @@ theorem step_inv {c : Cfg} {s t : St} (hl : c.legacy = false) (a : Act) (hi : In
           · subst e
             have hp := ph k
             simp only [Phase, hpc, PhaseOf] at hp
-            simp only [Phase, St.setPc, upd_same, PhaseOf]
+            simp only [Phase, St.setPc, upd_same, phaseOf_afterSend]
             refine ⟨?_, hp.2⟩
             have h0 := hp.1
             simp only [holds, upd_same, count_snoc, if_true, if_pos rfl] at h0 ⊢
@@ -121,7 +126,7 @@ theorem step_inv {c : Cfg} {s t : St} (hl : c.legacy = false) (a : Act) (hi : In
             · subst e
               have hp := ph k
               simp only [Phase, hpc, PhaseOf] at hp
-              simp only [Phase, St.setPc, upd_same, PhaseOf]
+              simp only [Phase, St.setPc, upd_same, phaseOf_afterSend]
               refine ⟨?_, hp.2⟩
               have h0 := hp.1
               simp only [holds, upd_same, hact, actorHolds, if_true, if_pos rfl] at h0 ⊢
@@ -368,6 +373,28 @@ theorem step_inv {c : Cfg} {s t : St} (hl : c.legacy = false) (a : Act) (hi : In
           · intro k w hw; rw [hans]; exact actOK k w hw
     · cases h
 
+  | read i =>
+    simp only [step] at h
+    split at h
+    · next hpc =>
+      cases h
+      refine ⟨np, ?_, ?_, ?_⟩
+      · intro k
+        by_cases e : k = i
+        · subst e
+          have hp := ph k
+          simp only [Phase, hpc, PhaseOf] at hp
+          simp only [Phase, St.setPc, upd_same, PhaseOf]
+          exact ⟨by simpa [holds] using hp.1, hp.2⟩
+        · exact phase_congr s (by simp [St.setPc, e]) (by simp [St.setPc, holds, e]) (ph k)
+      · intro k v hv
+        rw [hans]; apply bufOK
+        by_cases e : k = i
+        · subst e; simpa [St.setPc] using hv
+        · simpa [St.setPc, e] using hv
+      · intro k v hv; rw [hans]; exact actOK k v hv
+    · cases h
+
 theorem reach_inv {c : Cfg} {spec s} (hl : c.legacy = false) (h : Reach c spec s) : Inv c s := by
   induction h with
   | init => exact inv_init c spec
@@ -393,11 +420,13 @@ theorem reach_static {c spec s} (h : Reach c spec s) (k : Nat) :
     exact ⟨this.1.trans ih.1, this.2.1.trans ih.2.1, this.2.2.trans ih.2.2⟩
 
 /-- the actor inside `Reply` can always get out: by delivering, by buffering, by seeing `done`, or — when the
-    asker's timer has fired but `done` is not closed yet — after the asker's own next atom -/
+    asker's timer has fired but `done` is not closed yet, or an AskChannel caller holds the channel without reading
+    yet — after the asker's own next atom -/
 theorem Inv.reply_progress {c : Cfg} {s : St} (hl : c.legacy = false) (hi : Inv c s) {i v : Nat}
     (ha : s.actor = .replying i v) :
     ((step c s .replySend).isSome = true ∧ (s.asker i).chClosed = false) ∨ (step c s .replyDone).isSome = true ∨
-      ((s.asker i).pc = .fired ∧ (step c s (.giveUp i)).isSome = true) := by
+      ((s.asker i).pc = .fired ∧ (step c s (.giveUp i)).isSome = true) ∨
+      ((s.asker i).pc = .holding ∧ (step c s (.read i)).isSome = true) := by
   have hp := hi.ph i
   have hh : s.mbox.count i + 1 + (s.asker i).buf.length = holds s i := by
     simp only [holds, ha, actorHolds, if_true, if_pos rfl]
@@ -413,11 +442,13 @@ theorem Inv.reply_progress {c : Cfg} {s : St} (hl : c.legacy = false) (hi : Inv 
     · simp [step, ha, hp.2.1, hb, hr, hpc]
     · have : 0 < (s.asker i).rcap := Nat.pos_of_ne_zero hr
       simp [step, ha, hp.2.1, hb, this]
-  · right; right
+  · right; right; left
     exact ⟨rfl, by simp [step, hpc, hl]⟩
   · omega
   · omega
   · right; left
     simp [step, ha, hp.2.2.1, hl]
+  · right; right; right
+    exact ⟨rfl, by simp [step, hpc]⟩
 
 end FpgoVerif.C13
